@@ -57,10 +57,17 @@ func extractNumberDFA(c *Ctx, u *Universe) *numDFA {
 		return d
 	}
 	chObj := identObj(info, rs.Value)
-	stateObj := findLocal(info, fd, "state")
-	parsedObj := findLocal(info, fd, "parsedChars")
+	// roles, not names: the state variable is the local that is only ever assigned local constants, the
+	// consumed-characters counter is the local the loop body increments
+	var stateObj, parsedObj types.Object
+	if sv := stateLikeVars(info, fd); len(sv) == 1 {
+		stateObj = sv[0]
+	}
+	if cv := counterVars(info, body); len(cv) == 1 {
+		parsedObj = cv[0]
+	}
 	if chObj == nil || stateObj == nil || parsedObj == nil {
-		d.problem = "state / parsedChars / ch variables not found"
+		d.problem = "state variable / consumed-characters counter / character variable not identifiable"
 		return d
 	}
 	// initial state: value of `var state = …`
@@ -141,7 +148,7 @@ func extractNumberDFA(c *Ctx, u *Universe) *numDFA {
 		}
 	}
 	// post-processing after the loop
-	after := stmtsAfterLabel(fd, "end")
+	after := stmtsAfterLabel(fd, "")
 	if after == nil {
 		// no label: statements after the loop
 		for i, s := range fd.Body.List {
@@ -407,17 +414,67 @@ func checkKeywordTrie(c *Ctx, u *Universe) {
 	for n, v := range typeConsts {
 		typeNames[v] = append(typeNames[v], n)
 	}
-	wordLenObj := findLocal(info, fd, "wordLen")
-	var moveObj types.Object
+	// roles, not names: the "consume the keyword" switch is the boolean parameter; the word length is the local
+	// integer that is only ever assigned integer literals
+	var moveObj, wordLenObj types.Object
 	for _, f := range fd.Type.Params.List {
 		for _, nm := range f.Names {
-			if nm.Name == "moveForward" {
+			if b, ok := info.TypeOf(f.Type).Underlying().(*types.Basic); ok && b.Kind() == types.Bool {
 				moveObj = info.Defs[nm]
 			}
 		}
 	}
+	{
+		lit := map[types.Object]int{}
+		other := map[types.Object]bool{}
+		var order []types.Object
+		note := func(l ast.Expr, r ast.Expr) {
+			o := identObj(info, l)
+			v, ok := o.(*types.Var)
+			if !ok || v.IsField() {
+				return
+			}
+			if b, ok := v.Type().Underlying().(*types.Basic); !ok || b.Info()&types.IsInteger == 0 {
+				return
+			}
+			if _, isLit := ast.Unparen(r).(*ast.BasicLit); isLit {
+				if lit[o] == 0 {
+					order = append(order, o)
+				}
+				lit[o]++
+			} else {
+				other[o] = true
+			}
+		}
+		ast.Inspect(fd, func(n ast.Node) bool {
+			switch x := n.(type) {
+			case *ast.AssignStmt:
+				if len(x.Lhs) == len(x.Rhs) {
+					for i := range x.Lhs {
+						note(x.Lhs[i], x.Rhs[i])
+					}
+				}
+			case *ast.ValueSpec:
+				for i, nm := range x.Names {
+					if i < len(x.Values) {
+						note(nm, x.Values[i])
+					}
+				}
+			case *ast.IncDecStmt:
+				if o := identObj(info, x.X); o != nil {
+					other[o] = true
+				}
+			}
+			return true
+		})
+		for _, o := range order {
+			if !other[o] && lit[o] >= 3 && wordLenObj == nil {
+				wordLenObj = o
+			}
+		}
+	}
 	if wordLenObj == nil || moveObj == nil {
-		R.undecided("C04.trie", "pkg/syntax/zh.parseKeyword", u.pos(fd.Pos()), "wordLen / moveForward not found")
+		R.undecided("C04.trie", "pkg/syntax/zh.parseKeyword", u.pos(fd.Pos()), "word-length variable / consume parameter not identifiable")
 		return
 	}
 	var runFrom func(text []rune, symFrom int) ([]Outcome, *PE)
@@ -471,7 +528,25 @@ func checkKeywordTrie(c *Ctx, u *Universe) {
 		if !o.RetV[0].B {
 			return false, 0, 0, nexts, true
 		}
-		t := o.St.sel["tk.Type"]
+		// the token's type: field Type of the returned token variable (or of a returned literal)
+		var t Val
+		if len(o.Ret) >= 2 {
+			switch rx := ast.Unparen(o.Ret[1]).(type) {
+			case *ast.Ident:
+				t = o.St.sel[rx.Name+".Type"]
+			case *ast.CompositeLit:
+				for _, el := range rx.Elts {
+					if kv, ok := el.(*ast.KeyValueExpr); ok {
+						if id, ok := kv.Key.(*ast.Ident); ok && id.Name == "Type" {
+							t = Val{K: vInt}
+							if v, ok := constInt(info, kv.Value); ok {
+								t.I = v
+							}
+						}
+					}
+				}
+			}
+		}
 		w := o.St.env[wordLenObj]
 		if t.K != vInt || w.K != vInt {
 			return true, 0, 0, nexts, false
@@ -1015,17 +1090,20 @@ func checkIdentifierScan(c *Ctx, u *Universe) {
 	}
 	if fd != nil && loadTable(c, "operators.json", &refT) {
 		pe := newPE(u, p.TypesInfo, fd)
-		o := findLocal(p.TypesInfo, fd, "terminateMarkers")
 		got := map[string]bool{}
 		found := false
-		if o != nil {
+		{
+			// the terminator set is the local built by append([]rune{…}, markPunctuations...) (whatever it is called)
 			ast.Inspect(fd.Body, func(n ast.Node) bool {
 				as, ok := n.(*ast.AssignStmt)
-				if !ok || len(as.Lhs) != 1 || p.TypesInfo.Defs[identOf(as.Lhs[0])] != o {
+				if !ok || len(as.Lhs) != 1 || len(as.Rhs) != 1 {
 					return true
 				}
 				call, ok := as.Rhs[0].(*ast.CallExpr)
 				if !ok || len(call.Args) < 1 {
+					return true
+				}
+				if bi, isB := p.TypesInfo.Uses[identOf(call.Fun)].(*types.Builtin); !isB || bi.Name() != "append" {
 					return true
 				}
 				if list, ok := pe.constList(call.Args[0]); ok {
